@@ -25,12 +25,13 @@ set_option linter.unusedSectionVars false
 set_option linter.unusedVariables false
 
 variable {F : Type} [Scalar F]
+variable {fa : List (Nat × Nat)}
 
 /-! ## 1. Case tables -/
 
 /-- `send_connection_batch`, exactly. -/
 theorem sendBatch_exact (l : FLink F) (now : Nat) (fn : List Nat) :
-    sendConnectionBatch l now fn =
+    sendConnectionBatch fa l now fn =
       if l.queue.isEmpty then ((l.takeBatch now).1, [], true, fn)
       else if fn.contains l.core.connId then ((l.takeBatch now).1, [], false, fn.erase l.core.connId)
       else ((l.takeBatch now).1, (bytesOf l.queue).map (fun y => (l.core.connId, y)), true, fn) := by
@@ -59,7 +60,7 @@ theorem count_of_eq_or_erase {fn fn' : List Nat} {a b : Nat} (h : fn' = fn ∨ f
 common tail of `forward_via_connection` and `send_stall_probes`) as a case table.  `fn` is the list of pending
 send-failure injections when the link is reached. -/
 theorem fwdLink_cases (l : FLink F) (pkt : Bytes) (seq : Option Nat) (now : Nat) (fn : List Nat) :
-    let r := Hk.fwdLink l pkt seq now fn
+    let r := Hk.fwdLink fa l pkt seq now fn
     (l.queue.length + 1 < l.regime.batchSize ∧ r.1 = (l.queueDataPacket pkt seq now).1 ∧ r.2.1 = [] ∧ r.2.2 = fn) ∨
     (l.regime.batchSize ≤ l.queue.length + 1 ∧ l.core.connId ∉ fn ∧
       r.1 = ((l.queueDataPacket pkt seq now).1.takeBatch now).1 ∧
@@ -92,7 +93,7 @@ theorem fwdLink_cases (l : FLink F) (pkt : Bytes) (seq : Option Nat) (now : Nat)
     exact ⟨by omega, rfl, rfl, rfl⟩
 
 theorem fwdLink_fn (l : FLink F) (pkt : Bytes) (seq : Option Nat) (now : Nat) (fn : List Nat) :
-    (Hk.fwdLink l pkt seq now fn).2.2 = fn ∨ (Hk.fwdLink l pkt seq now fn).2.2 = fn.erase l.core.connId := by
+    (Hk.fwdLink fa l pkt seq now fn).2.2 = fn ∨ (Hk.fwdLink fa l pkt seq now fn).2.2 = fn.erase l.core.connId := by
   rcases fwdLink_cases l pkt seq now fn with h | h | h
   · exact Or.inl h.2.2.2
   · exact Or.inl h.2.2.2.2
@@ -102,8 +103,8 @@ theorem fwdLink_fn (l : FLink F) (pkt : Bytes) (seq : Option Nat) (now : Nat) (f
 one) as a case table: the 1-in-100 counter does not fire — only the counter moves —, or it fires and the
 copy goes through `fwdLink` on the record with the counter back at 0. -/
 theorem probeLink_cases (l : FLink F) (pkt : Bytes) (seq : Option Nat) (now : Nat) (fn : List Nat) :
-    (l.probeCounter + 1 < 100 ∧ Hk.probeLink l pkt seq now fn = (l.stallProbeDue.1, [], fn)) ∨
-    (100 ≤ l.probeCounter + 1 ∧ Hk.probeLink l pkt seq now fn = Hk.fwdLink l.stallProbeDue.1 pkt seq now fn) := by
+    (l.probeCounter + 1 < 100 ∧ Hk.probeLink fa l pkt seq now fn = (l.stallProbeDue.1, [], fn)) ∨
+    (100 ≤ l.probeCounter + 1 ∧ Hk.probeLink fa l pkt seq now fn = Hk.fwdLink fa l.stallProbeDue.1 pkt seq now fn) := by
   obtain ⟨d1, -⟩ := stallProbeDue_spec l
   unfold Hk.probeLink
   by_cases h : 100 ≤ l.probeCounter + 1
@@ -117,7 +118,7 @@ theorem probeLink_cases (l : FLink F) (pkt : Bytes) (seq : Option Nat) (now : Na
     exact ⟨by omega, rfl⟩
 
 theorem probeLink_fn (l : FLink F) (pkt : Bytes) (seq : Option Nat) (now : Nat) (fn : List Nat) :
-    (Hk.probeLink l pkt seq now fn).2.2 = fn ∨ (Hk.probeLink l pkt seq now fn).2.2 = fn.erase l.core.connId := by
+    (Hk.probeLink fa l pkt seq now fn).2.2 = fn ∨ (Hk.probeLink fa l pkt seq now fn).2.2 = fn.erase l.core.connId := by
   rcases probeLink_cases l pkt seq now fn with ⟨-, h⟩ | ⟨-, h⟩
   · rw [h]; exact Or.inl rfl
   · rw [h]
@@ -137,7 +138,7 @@ theorem probeCalled_iff (sel i : Nat) (l : FLink F) :
     exact ⟨⟨a, by simp [b]⟩, by simp [c]⟩
 
 theorem stallProbesGo_fnLe (pkt : Bytes) (seq : Option Nat) (now sel : Nat) (ls : List (FLink F)) (i : Nat)
-    (fn : List Nat) : Hk.FnLe fn (stallProbesGo pkt seq now sel ls i fn).2.2 := by
+    (fn : List Nat) : Hk.FnLe fn (stallProbesGo fa pkt seq now sel ls i fn).2.2 := by
   induction ls generalizing i fn with
   | nil => exact Hk.FnLe.refl _
   | cons l rest ih =>
@@ -153,12 +154,12 @@ differs from the list the pass started with only by erasures of conn ids of EARL
 put on the wire is part of the wire output of the pass; the failure list only shrinks afterwards. -/
 theorem probes_get (pkt : Bytes) (seq : Option Nat) (now sel : Nat) :
     ∀ (ls : List (FLink F)) (i : Nat) (fn : List Nat) (k : Nat) (l : FLink F), ls[k]? = some l →
-      (¬ probeCalled sel (i + k) l ∧ (stallProbesGo pkt seq now sel ls i fn).1[k]? = some l) ∨
+      (¬ probeCalled sel (i + k) l ∧ (stallProbesGo fa pkt seq now sel ls i fn).1[k]? = some l) ∨
       (probeCalled sel (i + k) l ∧ ∃ fnk, Hk.FnLe fn fnk ∧
         (∀ a, (∀ m ∈ ls.take k, m.core.connId ≠ a) → fnk.count a = fn.count a) ∧
-        (stallProbesGo pkt seq now sel ls i fn).1[k]? = some (Hk.probeLink l pkt seq now fnk).1 ∧
-        Hk.FnLe (Hk.probeLink l pkt seq now fnk).2.2 (stallProbesGo pkt seq now sel ls i fn).2.2 ∧
-        ∀ y ∈ (Hk.probeLink l pkt seq now fnk).2.1, y ∈ (stallProbesGo pkt seq now sel ls i fn).2.1) := by
+        (stallProbesGo fa pkt seq now sel ls i fn).1[k]? = some (Hk.probeLink fa l pkt seq now fnk).1 ∧
+        Hk.FnLe (Hk.probeLink fa l pkt seq now fnk).2.2 (stallProbesGo fa pkt seq now sel ls i fn).2.2 ∧
+        ∀ y ∈ (Hk.probeLink fa l pkt seq now fnk).2.1, y ∈ (stallProbesGo fa pkt seq now sel ls i fn).2.1) := by
   intro ls
   induction ls with
   | nil => intro i fn k l hl; simp at hl
@@ -186,7 +187,7 @@ theorem probes_get (pkt : Bytes) (seq : Option Nat) (now sel : Nat) :
         · refine Or.inr ⟨h1, fnk, h2, fun a ha => h3 a (fun m hm => ha m ?_), by simpa using h4, h5, h6⟩
           rw [List.take_succ_cons]; exact List.mem_cons_of_mem _ hm
       · have hfn := probeLink_fn l0 pkt seq now fn
-        rcases ih (i + 1) (Hk.probeLink l0 pkt seq now fn).2.2 k l hl with ⟨h1, h2⟩ | ⟨h1, fnk, h2, h3, h4, h5, h6⟩
+        rcases ih (i + 1) (Hk.probeLink fa l0 pkt seq now fn).2.2 k l hl with ⟨h1, h2⟩ | ⟨h1, fnk, h2, h3, h4, h5, h6⟩
         · exact Or.inl ⟨h1, by simpa using h2⟩
         · refine Or.inr ⟨h1, fnk, (fnLe_of_eq_or_erase hfn).trans h2, fun a ha => ?_, by simpa using h4, h5,
             fun y hy => List.mem_append_right _ (h6 y hy)⟩
@@ -197,14 +198,14 @@ theorem probes_get (pkt : Bytes) (seq : Option Nat) (now sel : Nat) :
 
 theorem forwardVia_wire (s : Sys F) (sel : Nat) (pkt : Bytes) (seq : Option Nat) (now : Nat) (l : FLink F)
     (hl : s.links[sel]? = some l) :
-    (forwardVia s sel pkt seq now).2.wire = (Hk.fwdLink l pkt seq now s.failNext).2.1 := by
+    (forwardVia s sel pkt seq now).2.wire = (Hk.fwdLink s.failAfter l pkt seq now s.failNext).2.1 := by
   unfold forwardVia Hk.fwdLink
   rw [hl]
   dsimp only
   split <;> rfl
 
 theorem fwdLink_connId (l : FLink F) (pkt : Bytes) (seq : Option Nat) (now : Nat) (fn : List Nat) :
-    (Hk.fwdLink l pkt seq now fn).1.core.connId = l.core.connId := by
+    (Hk.fwdLink fa l pkt seq now fn).1.core.connId = l.core.connId := by
   have hq := (queueDataPacket_spec l pkt seq now).2.2.1
   have ht := (takeBatch_spec (l.queueDataPacket pkt seq now).1 now).2.2.1
   rcases fwdLink_cases l pkt seq now fn with h | h | h
@@ -218,16 +219,16 @@ theorem fwdLink_connId (l : FLink F) (pkt : Bytes) (seq : Option Nat) (now : Nat
 theorem routeTo_exact (s1 : Sys F) (sel : Nat) (pkt : Bytes) (seq : Option Nat) (now : Nat) (probes : Bool)
     (lsel : FLink F) (hlsel : s1.links[sel]? = some lsel) :
     Hk.FnLe s1.failNext (routeTo s1 sel pkt seq now probes).1.failNext ∧
-    ((routeTo s1 sel pkt seq now probes).1.links[sel]? = some (Hk.fwdLink lsel pkt seq now s1.failNext).1 ∧
-      Hk.FnLe (Hk.fwdLink lsel pkt seq now s1.failNext).2.2 (routeTo s1 sel pkt seq now probes).1.failNext ∧
-      ∀ y ∈ (Hk.fwdLink lsel pkt seq now s1.failNext).2.1, y ∈ (routeTo s1 sel pkt seq now probes).2.wire) ∧
+    ((routeTo s1 sel pkt seq now probes).1.links[sel]? = some (Hk.fwdLink s1.failAfter lsel pkt seq now s1.failNext).1 ∧
+      Hk.FnLe (Hk.fwdLink s1.failAfter lsel pkt seq now s1.failNext).2.2 (routeTo s1 sel pkt seq now probes).1.failNext ∧
+      ∀ y ∈ (Hk.fwdLink s1.failAfter lsel pkt seq now s1.failNext).2.1, y ∈ (routeTo s1 sel pkt seq now probes).2.wire) ∧
     ∀ i l1, i ≠ sel → s1.links[i]? = some l1 →
       (¬ (probes = true ∧ probeCalled sel i l1) ∧ (routeTo s1 sel pkt seq now probes).1.links[i]? = some l1) ∨
       (probes = true ∧ probeCalled sel i l1 ∧ ∃ fnk, Hk.FnLe s1.failNext fnk ∧
         ((ids s1.links).Nodup → fnk.count l1.core.connId = s1.failNext.count l1.core.connId) ∧
-        (routeTo s1 sel pkt seq now probes).1.links[i]? = some (Hk.probeLink l1 pkt seq now fnk).1 ∧
-        Hk.FnLe (Hk.probeLink l1 pkt seq now fnk).2.2 (routeTo s1 sel pkt seq now probes).1.failNext ∧
-        ∀ y ∈ (Hk.probeLink l1 pkt seq now fnk).2.1, y ∈ (routeTo s1 sel pkt seq now probes).2.wire) := by
+        (routeTo s1 sel pkt seq now probes).1.links[i]? = some (Hk.probeLink fa l1 pkt seq now fnk).1 ∧
+        Hk.FnLe (Hk.probeLink s1.failAfter l1 pkt seq now fnk).2.2 (routeTo s1 sel pkt seq now probes).1.failNext ∧
+        ∀ y ∈ (Hk.probeLink fa l1 pkt seq now fnk).2.1, y ∈ (routeTo s1 sel pkt seq now probes).2.wire) := by
   obtain ⟨e1, e2, -, -⟩ := Hk.forwardVia_eq s1 sel pkt seq now lsel hlsel
   have ew := forwardVia_wire s1 sel pkt seq now lsel hlsel
   have hf := fwdLink_fn lsel pkt seq now s1.failNext
@@ -242,19 +243,19 @@ theorem routeTo_exact (s1 : Sys F) (sel : Nat) (pkt : Bytes) (seq : Option Nat) 
     · rw [setAt_getElem?]; simp [hi, hl1]
   · simp only [if_true, true_and]
     rw [e1, e2, ew]
-    have hple := stallProbesGo_fnLe pkt seq now sel (setAt s1.links sel (Hk.fwdLink lsel pkt seq now s1.failNext).1) 0
-      (Hk.fwdLink lsel pkt seq now s1.failNext).2.2
+    have hple := stallProbesGo_fnLe pkt seq now sel (setAt s1.links sel (Hk.fwdLink s1.failAfter lsel pkt seq now s1.failNext).1) 0
+      (Hk.fwdLink s1.failAfter lsel pkt seq now s1.failNext).2.2
     refine ⟨hfle.trans hple, ?_, fun i l1 hi hl1 => ?_⟩
-    · have hg : (setAt s1.links sel (Hk.fwdLink lsel pkt seq now s1.failNext).1)[sel]? =
-          some (Hk.fwdLink lsel pkt seq now s1.failNext).1 := by
+    · have hg : (setAt s1.links sel (Hk.fwdLink s1.failAfter lsel pkt seq now s1.failNext).1)[sel]? =
+          some (Hk.fwdLink s1.failAfter lsel pkt seq now s1.failNext).1 := by
         rw [setAt_getElem?]; simp [hlsel]
-      rcases probes_get pkt seq now sel _ 0 (Hk.fwdLink lsel pkt seq now s1.failNext).2.2 sel _ hg with
+      rcases probes_get pkt seq now sel _ 0 (Hk.fwdLink s1.failAfter lsel pkt seq now s1.failNext).2.2 sel _ hg with
         ⟨-, h2⟩ | ⟨h1, -⟩
       · exact ⟨h2, hple, fun y hy => List.mem_append_left _ hy⟩
       · exact absurd (Nat.zero_add sel) h1.1
-    · have hg : (setAt s1.links sel (Hk.fwdLink lsel pkt seq now s1.failNext).1)[i]? = some l1 := by
+    · have hg : (setAt s1.links sel (Hk.fwdLink s1.failAfter lsel pkt seq now s1.failNext).1)[i]? = some l1 := by
         rw [setAt_getElem?]; simp [hi, hl1]
-      rcases probes_get pkt seq now sel _ 0 (Hk.fwdLink lsel pkt seq now s1.failNext).2.2 i _ hg with
+      rcases probes_get pkt seq now sel _ 0 (Hk.fwdLink s1.failAfter lsel pkt seq now s1.failNext).2.2 i _ hg with
         ⟨h1, h2⟩ | ⟨h1, fnk, h2, h3, h4, h5, h6⟩
       · rw [Nat.zero_add] at h1
         exact Or.inl ⟨h1, h2⟩
@@ -281,10 +282,10 @@ theorem routeTo_exact (s1 : Sys F) (sel : Nat) (pkt : Bytes) (seq : Option Nat) 
 /-- **One client datagram, every link, exactly.**  Non-empty datagram routed to `sel`
 (`target s pkt now = some sel`); `l1` = link `i` as `forward_via_connection` / `send_stall_probes` see it (after
 this call's selection pass: same queue, core, probe counter and regime as before it).  Then
-* `i = sel`: the record afterwards is `Hk.fwdLink l1 …` on the failure list the event started with;
+* `i = sel`: the record afterwards is `Hk.fwdLink fa l1 …` on the failure list the event started with;
 * `i ≠ sel`, `stall_probe_due` not consulted (not registered, or not a data packet, or the link is not
   stall-gated or not connected): the record is `l1`;
-* `i ≠ sel`, consulted: the record is `Hk.probeLink l1 …` on a failure list `fnk` which — conn ids being
+* `i ≠ sel`, consulted: the record is `Hk.probeLink fa l1 …` on a failure list `fnk` which — conn ids being
   distinct — contains link `i`'s conn id exactly as often as the list the event started with.
 In both active cases whatever that link put on the wire is part of the event's wire output, and every failure
 list involved only shrinks towards the one the event leaves behind. -/
@@ -294,10 +295,10 @@ theorem client_exact (s : Sys F) (pkt : Bytes) (now sel : Nat) (hne : pkt.isEmpt
     ∀ i l1, (routedLinks s now)[i]? = some l1 →
       (i = sel ∧
         (handleSrtPacket s pkt now).1.links[i]? =
-          some (Hk.fwdLink l1 pkt (Codec.getSrtSequenceNumberS pkt) now s.failNext).1 ∧
-        Hk.FnLe (Hk.fwdLink l1 pkt (Codec.getSrtSequenceNumberS pkt) now s.failNext).2.2
+          some (Hk.fwdLink s.failAfter l1 pkt (Codec.getSrtSequenceNumberS pkt) now s.failNext).1 ∧
+        Hk.FnLe (Hk.fwdLink s.failAfter l1 pkt (Codec.getSrtSequenceNumberS pkt) now s.failNext).2.2
           (handleSrtPacket s pkt now).1.failNext ∧
-        ∀ y ∈ (Hk.fwdLink l1 pkt (Codec.getSrtSequenceNumberS pkt) now s.failNext).2.1,
+        ∀ y ∈ (Hk.fwdLink s.failAfter l1 pkt (Codec.getSrtSequenceNumberS pkt) now s.failNext).2.1,
           y ∈ (handleSrtPacket s pkt now).2.wire) ∨
       (i ≠ sel ∧
         ¬ ((s.reg.hasConnected && (Codec.getSrtSequenceNumberS pkt).isSome) = true ∧ probeCalled sel i l1) ∧
@@ -306,10 +307,10 @@ theorem client_exact (s : Sys F) (pkt : Bytes) (now sel : Nat) (hne : pkt.isEmpt
         ∃ fnk, Hk.FnLe s.failNext fnk ∧
           ((ids s.links).Nodup → fnk.count l1.core.connId = s.failNext.count l1.core.connId) ∧
           (handleSrtPacket s pkt now).1.links[i]? =
-            some (Hk.probeLink l1 pkt (Codec.getSrtSequenceNumberS pkt) now fnk).1 ∧
-          Hk.FnLe (Hk.probeLink l1 pkt (Codec.getSrtSequenceNumberS pkt) now fnk).2.2
+            some (Hk.probeLink fa l1 pkt (Codec.getSrtSequenceNumberS pkt) now fnk).1 ∧
+          Hk.FnLe (Hk.probeLink fa l1 pkt (Codec.getSrtSequenceNumberS pkt) now fnk).2.2
             (handleSrtPacket s pkt now).1.failNext ∧
-          ∀ y ∈ (Hk.probeLink l1 pkt (Codec.getSrtSequenceNumberS pkt) now fnk).2.1,
+          ∀ y ∈ (Hk.probeLink fa l1 pkt (Codec.getSrtSequenceNumberS pkt) now fnk).2.1,
             y ∈ (handleSrtPacket s pkt now).2.wire) := by
   have hrange : sel < (routedLinks s now).length := by
     rw [routedLinks_length]; exact target_in_range s pkt now sel ht
@@ -349,7 +350,7 @@ theorem client_exact (s : Sys F) (pkt : Bytes) (now sel : Nat) (hne : pkt.isEmpt
 /-! ## 4. The periodic flush, position by position -/
 
 theorem sendBatch_fn (l : FLink F) (now : Nat) (fn : List Nat) :
-    (sendConnectionBatch l now fn).2.2.2 = fn ∨ (sendConnectionBatch l now fn).2.2.2 = fn.erase l.core.connId := by
+    (sendConnectionBatch fa l now fn).2.2.2 = fn ∨ (sendConnectionBatch fa l now fn).2.2.2 = fn.erase l.core.connId := by
   rw [sendBatch_exact]
   split
   · exact Or.inl rfl
@@ -357,7 +358,7 @@ theorem sendBatch_fn (l : FLink F) (now : Nat) (fn : List Nat) :
     · exact Or.inr rfl
     · exact Or.inl rfl
 
-theorem flushGo_fnLe (now : Nat) (ls : List (FLink F)) (fn : List Nat) : Hk.FnLe fn (flushGo now ls fn).2.2 := by
+theorem flushGo_fnLe (now : Nat) (ls : List (FLink F)) (fn : List Nat) : Hk.FnLe fn (flushGo fa now ls fn).2.2 := by
   induction ls generalizing fn with
   | nil => exact Hk.FnLe.refl _
   | cons l rest ih =>
@@ -372,12 +373,12 @@ through `send_connection_batch` on the failure list `fnk` threaded up to that po
 list the pass started with only by erasures of conn ids of EARLIER links. -/
 theorem flushGo_get (now : Nat) :
     ∀ (ls : List (FLink F)) (fn : List Nat) (k : Nat) (l : FLink F), ls[k]? = some l →
-      (¬ ((l.needsBatchFlush now || !l.queue.isEmpty) = true) ∧ (flushGo now ls fn).1[k]? = some l) ∨
+      (¬ ((l.needsBatchFlush now || !l.queue.isEmpty) = true) ∧ (flushGo fa now ls fn).1[k]? = some l) ∨
       ((l.needsBatchFlush now || !l.queue.isEmpty) = true ∧ ∃ fnk, Hk.FnLe fn fnk ∧
         (∀ a, (∀ m ∈ ls.take k, m.core.connId ≠ a) → fnk.count a = fn.count a) ∧
-        (flushGo now ls fn).1[k]? = some (sendConnectionBatch l now fnk).1 ∧
-        Hk.FnLe (sendConnectionBatch l now fnk).2.2.2 (flushGo now ls fn).2.2 ∧
-        ∀ y ∈ (sendConnectionBatch l now fnk).2.1, y ∈ (flushGo now ls fn).2.1) := by
+        (flushGo fa now ls fn).1[k]? = some (sendConnectionBatch fa l now fnk).1 ∧
+        Hk.FnLe (sendConnectionBatch fa l now fnk).2.2.2 (flushGo fa now ls fn).2.2 ∧
+        ∀ y ∈ (sendConnectionBatch fa l now fnk).2.1, y ∈ (flushGo fa now ls fn).2.1) := by
   intro ls
   induction ls with
   | nil => intro fn k l hl; simp at hl
@@ -400,7 +401,7 @@ theorem flushGo_get (now : Nat) :
       split
       · dsimp only
         have hfn := sendBatch_fn l0 now fn
-        rcases ih (sendConnectionBatch l0 now fn).2.2.2 k l hl with ⟨h1, h2⟩ | ⟨h1, fnk, h2, h3, h4, h5, h6⟩
+        rcases ih (sendConnectionBatch fa l0 now fn).2.2.2 k l hl with ⟨h1, h2⟩ | ⟨h1, fnk, h2, h3, h4, h5, h6⟩
         · exact Or.inl ⟨h1, by simpa using h2⟩
         · refine Or.inr ⟨h1, fnk, (fnLe_of_eq_or_erase hfn).trans h2, fun a ha => ?_, by simpa using h4, h5,
             fun y hy => List.mem_append_right _ (h6 y hy)⟩
@@ -420,9 +421,9 @@ theorem flush_exact (s : Sys F) (now : Nat) (i : Nat) (l : FLink F) (hl : s.link
     ((l.queue = [] ∧ (flushAllBatches s now).1.links[i]? = some l) ∨
      (l.queue ≠ [] ∧ ∃ fnk, Hk.FnLe s.failNext fnk ∧
         ((ids s.links).Nodup → fnk.count l.core.connId = s.failNext.count l.core.connId) ∧
-        (flushAllBatches s now).1.links[i]? = some (sendConnectionBatch l now fnk).1 ∧
-        Hk.FnLe (sendConnectionBatch l now fnk).2.2.2 (flushAllBatches s now).1.failNext ∧
-        ∀ y ∈ (sendConnectionBatch l now fnk).2.1, y ∈ (flushAllBatches s now).2.wire)) := by
+        (flushAllBatches s now).1.links[i]? = some (sendConnectionBatch fa l now fnk).1 ∧
+        Hk.FnLe (sendConnectionBatch s.failAfter l now fnk).2.2.2 (flushAllBatches s now).1.failNext ∧
+        ∀ y ∈ (sendConnectionBatch fa l now fnk).2.1, y ∈ (flushAllBatches s now).2.wire)) := by
   have hcond : ∀ m : FLink F, (m.needsBatchFlush now || !m.queue.isEmpty) = true ↔ m.queue ≠ [] := by
     intro m
     unfold FLink.needsBatchFlush
@@ -465,9 +466,9 @@ theorem wireOf_ne_nil_of_mem {c : Nat} {b : Bytes} {w : List (Nat × Bytes)} (h 
 /-- The three outcomes of `Hk.fwdLink`, seen from outside: the queue is non-empty afterwards, or something
 tagged with the link's conn id is on the wire, or the injected failure for the conn id is consumed. -/
 theorem fwdLink_fate (l : FLink F) (pkt : Bytes) (seq : Option Nat) (now : Nat) (fn : List Nat) :
-    (Hk.fwdLink l pkt seq now fn).1.queue ≠ [] ∨
-    (∃ b, (l.core.connId, b) ∈ (Hk.fwdLink l pkt seq now fn).2.1) ∨
-    (Hk.fwdLink l pkt seq now fn).2.2.count l.core.connId < fn.count l.core.connId := by
+    (Hk.fwdLink fa l pkt seq now fn).1.queue ≠ [] ∨
+    (∃ b, (l.core.connId, b) ∈ (Hk.fwdLink fa l pkt seq now fn).2.1) ∨
+    (Hk.fwdLink fa l pkt seq now fn).2.2.count l.core.connId < fn.count l.core.connId := by
   rcases fwdLink_cases l pkt seq now fn with h | h | h
   · left
     rw [h.2.1, (queueDataPacket_spec l pkt seq now).1]
@@ -514,9 +515,9 @@ theorem client_consumed (s : Sys F) (pkt : Bytes) (now : Nat) (hnd : (ids s.link
     obtain ⟨hfle, hx⟩ := client_exact s pkt now sel hpe ht
     -- the common end: a `fwdLink` on a record `m` with `m`'s conn id = `l`'s, from a list `fn0 ≤ failNext`
     have fin : ∀ (m : FLink F) (fn0 : List Nat), m.core.connId = l.core.connId → Hk.FnLe s.failNext fn0 →
-        l' = (Hk.fwdLink m pkt (Codec.getSrtSequenceNumberS pkt) now fn0).1 →
-        Hk.FnLe (Hk.fwdLink m pkt (Codec.getSrtSequenceNumberS pkt) now fn0).2.2 (handleSrtPacket s pkt now).1.failNext →
-        (∀ y ∈ (Hk.fwdLink m pkt (Codec.getSrtSequenceNumberS pkt) now fn0).2.1, y ∈ (handleSrtPacket s pkt now).2.wire) →
+        l' = (Hk.fwdLink fa m pkt (Codec.getSrtSequenceNumberS pkt) now fn0).1 →
+        Hk.FnLe (Hk.fwdLink s.failAfter m pkt (Codec.getSrtSequenceNumberS pkt) now fn0).2.2 (handleSrtPacket s pkt now).1.failNext →
+        (∀ y ∈ (Hk.fwdLink fa m pkt (Codec.getSrtSequenceNumberS pkt) now fn0).2.1, y ∈ (handleSrtPacket s pkt now).2.wire) →
         (handleSrtPacket s pkt now).1.failNext.count l.core.connId < s.failNext.count l.core.connId := by
       intro m fn0 hm h0 e1 e2 e3
       rcases fwdLink_fate m pkt (Codec.getSrtSequenceNumberS pkt) now fn0 with h | ⟨b, h⟩ | h
